@@ -199,6 +199,40 @@ def history_contracts(ck, cs, system, orbitA, orbitB):
         for d, a in seed_observables(system, orbitA, manA, r3, stable, 1e-4, step):
             cs.obs(t, "displacement", d)
             cs.obs(t, "floquet_angle", a)
+        # a manifold object that went through save / load (both stabilities, both sides) and is computed AFTER loading: it is still
+        # the manifold it was created as
+        from common import workdir as _workdir
+        from hiten.system.manifold import Manifold
+        for direction in ("positive", "negative"):
+            m0 = orbitA.manifold(stable=stable, direction=direction)
+            pth = _workdir("c12") / f"manifold_{int(stable)}_{direction}.pkl"
+            m0.save(pth)
+            m1 = Manifold.load(pth)
+            tl = cs.trace(f"history|loaded|stable={stable}|direction={direction}", {"displacement": -40, "floquet_angle": -27, "times_signed": -100,
+                                                                                    "same_side_as_unsaved": -30},
+                          {"orbit": "A-loaded", "stable": stable, "direction": direction})
+            ck.count(("history-loaded", stable, direction), True)
+            rl = m1.compute(step=step, integration_fraction=0.2, displacement=1e-4, dt=1e-2, show_progress=False)
+            r0 = m0.compute(step=step, integration_fraction=0.2, displacement=1e-4, dt=1e-2, show_progress=False)
+            for d, a in seed_observables(system, orbitA, m1, rl, stable, 1e-4, step):
+                cs.obs(tl, "displacement", d)
+                cs.obs(tl, "floquet_angle", a)
+            for times in rl[3]:
+                times = np.asarray(times, dtype=float)
+                dd = np.diff(times)
+                cs.obs(tl, "times_signed", 0.0 if (times[0] == 0.0 and (np.all(times <= 0) and np.all(dd < 0) if stable else np.all(times >= 0) and np.all(dd > 0))) else 1.0)
+            for sa, sb in zip(rl[2], r0[2]):
+                wa, wb = np.asarray(sa)[0], np.asarray(sb)[0]
+                cs.obs(tl, "same_side_as_unsaved", float(np.linalg.norm(wa - wb)) / 1e-4)
+        # displacement at the edge of the range (1e-9): the seed is still the orbit point plus displacement * eigenvector, also at
+        # phase 0 where the orbit's own y and vx vanish exactly
+        mt = orbitA.manifold(stable=stable, direction="positive")
+        rt = mt.compute(step=0.5, integration_fraction=0.1, displacement=1e-9, dt=1e-2, show_progress=False)
+        tt = cs.trace(f"history|tiny-displacement|stable={stable}", {"displacement": -25, "floquet_angle": -15}, {"orbit": "A-tiny", "stable": stable, "direction": "positive"})
+        ck.count(("history-tiny", stable), True)
+        for d, a in seed_observables(system, orbitA, mt, rt, stable, 1e-9, 0.5):
+            cs.obs(tt, "displacement", d)          # the orbit point itself is known to ~1e-12: a few per cent of 1e-9
+            cs.obs(tt, "floquet_angle", a)
 
 
 def main(tier=None, replay=None):
